@@ -189,6 +189,50 @@ fn gen_midline(r: &mut Rng, dim: usize) -> (&'static str, Vec<[f64; 3]>) {
     (name, pts)
 }
 
+/// Deep orders (round 5): clusters of points that differ only in quadrant digits below f64's
+/// 53 significant bits of the box extent -- possible next to a ZERO coordinate of the box frame,
+/// where f64 resolves 2^-60 and less.  The cluster lies on the x axis at `k * 2^-e`; pairs of
+/// points symmetric about the axis fix the box and keep the inertia matrix exactly diagonal (the
+/// frame is the input frame); the input order is shuffled.  Returns (name, points, order).
+fn gen_deep(r: &mut Rng, dim: usize) -> (&'static str, Vec<[f64; 3]>, u32) {
+    let max_order: u32 = if dim == 2 { 64 } else { 42 };
+    let order = if dim == 2 { r.range(54, 64) as u32 } else { r.range(40, 42) as u32 };
+    // cell size at the requested depth is 2^-order of the x extent; the points differ in the last levels
+    let e = (order as i32 - r.below(3) as i32).max(if dim == 2 { 54 } else { 38 }).min(max_order as i32);
+    let (name, xlo, xhi): (&'static str, f64, f64) = match r.below(3) {
+        0 => ("deep_min_corner", 0.0, 1.0),   // zero = the box's min corner
+        1 => ("deep_centre", -1.0, 1.0),      // zero = a level-1 cell corner inside the box
+        _ => ("deep_quarter", -1.0, 3.0),     // zero = a level-2 cell corner
+    };
+    let cnt = r.range(8, 16) as i64;
+    let unit = 2.0f64.powi(-e);
+    let mut pts: Vec<[f64; 3]> = Vec::new();
+    for k in 0..cnt {
+        let kk = if xlo < 0.0 { k - cnt / 2 } else { k };
+        pts.push([kk as f64 * unit, 0.0, 0.0]);
+    }
+    if r.chance(1, 2) {
+        let j = r.below(cnt as u64) as usize;
+        let d = pts[j];
+        pts.push(d); // a duplicate: equal cells stay equal
+    }
+    // the box: extreme points on the axis, and symmetric pairs off the axis
+    pts.push([xlo, 0.0, 0.0]);
+    pts.push([xhi, 0.0, 0.0]);
+    let xm = (xlo + xhi) / 2.0;
+    pts.push([xm, 0.125, 0.0]);
+    pts.push([xm, -0.125, 0.0]);
+    if dim == 3 {
+        pts.push([xm, 0.0, 0.0625]);
+        pts.push([xm, 0.0, -0.0625]);
+    }
+    for i in (1..pts.len()).rev() {
+        let j = r.below(i as u64 + 1) as usize;
+        pts.swap(i, j);
+    }
+    (name, pts, order)
+}
+
 fn gen_weights(r: &mut Rng, n: usize) -> (&'static str, Vec<f64>) {
     match r.below(8) {
         0 => ("ones", vec![1.0; n]),
@@ -459,14 +503,28 @@ fn case_hilbert(r: &mut Rng, big: bool) -> Out {
 
 fn case_zcurve(r: &mut Rng, big: bool) -> Out {
     let dim = if r.chance(1, 2) { 2 } else { 3 };
-    let midline = r.chance(1, 3);
-    let (pfam, pts) = if midline { gen_midline(r, dim) } else { gen_points(r, dim, big) };
+    let deep = r.chance(1, 40);
+    let midline = !deep && r.chance(1, 3);
+    let mut deep_order = 0u32;
+    let (pfam, pts) = if deep {
+        let (nm, p, o) = gen_deep(r, dim);
+        deep_order = o;
+        (nm, p)
+    } else if midline {
+        gen_midline(r, dim)
+    } else {
+        gen_points(r, dim, big)
+    };
     let n = pts.len();
     // part_count 1..n+2; 0 (division by zero, outside the contract) once in a while
     let mut part_count = if r.chance(1, 50) { 0 } else { r.range(1, n as i64 + 2) as usize };
     let max_order = if dim == 2 { 64 } else { 42 };
     let mut order = pick_order(r, max_order);
-    if midline {
+    if deep {
+        // part boundaries inside the cluster
+        part_count = r.range(3, (n as i64 / 2).max(3)) as usize;
+        order = deep_order;
+    } else if midline {
         // part boundaries inside cells, a few levels of refinement
         part_count = r.range(2, (n as i64 / 2).max(2)) as usize;
         order = r.range(2, 9) as u32;
